@@ -129,6 +129,10 @@ func (E *Engine) havocComp(st *State, comp string) {
 		return
 	}
 	st.heap[comp] = E.freshConst("H:"+comp, s)
+	if E.cur.compPtr[comp] {
+		st.assume(E.closureFact(st.heap[comp], s, st.alloc))
+	}
+	st.assume(E.frameAxiom(comp, st.heap[comp], s))
 	if st.written != nil {
 		st.written[comp] = true
 	}
@@ -219,6 +223,9 @@ func (E *Engine) load(st *State, h map[string]string, lv *LVal) *Val {
 	var scal []string
 	for _, l := range ls {
 		comp := compName(root, joinLeaf(prefix, l.Path))
+		if isPtrLeaf(l) {
+			E.cur.compPtr[comp] = true
+		}
 		a := E.heapArr(h, comp, l.Sort, twoD)
 		var t string
 		if twoD {
@@ -335,7 +342,17 @@ func (E *Engine) store(st *State, lv *LVal, nv *Val) {
 	}
 	for i, l := range ls {
 		comp := compName(root, joinLeaf(prefix, l.Path))
+		if isPtrLeaf(l) {
+			E.cur.compPtr[comp] = true
+		}
 		a := E.heapArr(st.heap, comp, l.Sort, twoD)
+		if i == 0 {
+			idx := ""
+			if twoD {
+				idx = lv.Idx
+			}
+			E.checkWrite(st, comp, lv.Ref, idx, "store")
+		}
 		if i == 0 && E.isImmutable(comp) {
 			E.oblige(st, "immutable-write", comp, not(sx("select", E.cur.entryAlloc, lv.Ref)), "immutable field is written only on objects created in this activation", "", nil)
 		}
@@ -389,6 +406,7 @@ type Oblig struct {
 	Clause  string
 	Inputs  map[string]string // driver-visible input name -> SMT term
 	ValueNames []string
+	Trace string
 }
 
 var symRe = regexp.MustCompile(`\|[^|]*\|`)
@@ -397,6 +415,7 @@ func (E *Engine) render(assumes []string, goal string, values []inputTerm) strin
 	f := &SMTFile{Sorts: []string{SStr}}
 	all := append(append([]string{}, assumes...), goal)
 	all = append(all, E.globalFacts...)
+
 	seen := map[string]bool{}
 	var work []string
 	scan := func(s string) {
@@ -450,6 +469,17 @@ func (E *Engine) render(assumes []string, goal string, values []inputTerm) strin
 	}
 	f.Prelude = axs
 	f.Assumes = append(append([]string{}, E.globalFacts...), assumes...)
+	if E.cur != nil {
+		for _, hf := range E.cur.heapFacts {
+			if seen[hf.Trigger[0]] {
+				f.Assumes = append(f.Assumes, hf.Body)
+				if !seen[fAlloc0] {
+					seen[fAlloc0] = true
+					f.Decls = append(f.Decls, Decl{fAlloc0, E.decls[fAlloc0]})
+				}
+			}
+		}
+	}
 	f.Goal = goal
 	for _, v := range values {
 		ok := true
@@ -476,7 +506,7 @@ func (E *Engine) oblige(st *State, kind, site, goal, pretty, pos string, cl *Cla
 	if site != "" {
 		name += "#" + site
 	}
-	ob := &Oblig{Name: name, Kind: kind, Func: c.key, Goal: pretty, Pos: pos, PathNo: c.paths}
+	ob := &Oblig{Name: name, Kind: kind, Func: c.key, Goal: pretty, Pos: pos, PathNo: c.paths, Trace: strings.Join(st.path, ">")}
 	if cl != nil {
 		ob.Clause = cl.Text
 		for p := range c.props {
